@@ -64,7 +64,7 @@ def orc_c14(case, obs):
 
 
 prop("C14", ["c14_read_total_and_inverse", "c14_gen_inverse", "c14_wire_layout"], ["HDR"], gen_c14, [orc_c14],
-     exhaustive="HDR: all 65536 header words and all 16 x 4096 (kind, label type, length) triples, every run")
+     exhaustive="HDR: all 65536 header words and all 16 x 4096 (kind, label type, length) triples, every run", exhaustive_run=True)
 
 
 # ------------------------------------------------------------------------------------------------
@@ -135,6 +135,9 @@ def orc_c12(case, obs):
             crc = int(t[3]) if t[0] == "EFRAG" else (ctx[1] if ctx else None)
             if crc is not None and e.pkt[-4:] != crc.to_bytes(4, "big"):
                 bad.append("end packet trailer %s != context CRC %08x" % (e.pkt[-4:].hex(), crc))
+        elif t[0] == "DECAPN" and ob.startswith("err Crc"):
+            # every train in these cases is produced by the sender and delivered in order to a receiver that knows the chain
+            bad.append("the receiver computes another CRC than the trailer the sender appended (err Crc on an unmodified train)")
         if t[0] in ("EFRAG", "EFRAGC") and e is not None and e.ok and e.status == "F":
             ctx = e.ctx
     return bad
@@ -155,6 +158,23 @@ def gen_c12(rng, t):
                                          rng.range(7 + lab_len(lab), 8 + lab_len(lab) + pl // 2)))
         for _ in range(4):
             c.add("EFRAGC %d 1" % rng.choice([8, 20, 400]))
+        out.append(c)
+    # the same through encap_ext (re-used labels, final mandatory extensions), delivered to a receiver: the arguments both
+    # sides pass to the CRC (label as written, protocol type behind the chain, total length) must be those of the standard
+    for i in range(300 * t):
+        c = Case("c12_ext%d" % i)
+        lab = rng.choice(LABELS)
+        pl = rng.range(1, 200)
+        c.add("ENEW", "DNEW 2 200 %s" % MGR_ALL, "DPROV 200", "DPROV 201")
+        if rng.chance(0.5) and lab != "B":
+            c.add("ENCAP - 0 2048 %s 40 1" % lab, "DECAPN -", "DPROVBACK")      # the next label is re-used
+        pt = rng.choice([0x0800, 0xFFFF, 0x0081, 0x0033])
+        ch = rand_chain(rng, final_id=(pt if pt < 0x100 else None), maxn=3)
+        el = sum(2 + len(d) for _, d in ch)
+        c.add("EEXT %s %d %d %s %d 5 %s" % (pdu_tok(rng, pl), rng.below(256), pt, lab,
+                                           rng.range(7 + lab_len(lab) + el, 8 + lab_len(lab) + el + pl // 2), exts_tok(ch)), "DECAPN -")
+        for _ in range(4):
+            c.add("EFRAGC %d 1" % rng.choice([8, 20, 400]), "DECAPN -")
         out.append(c)
     return out
 
@@ -1005,7 +1025,7 @@ def orc_c02(case, obs):
     return bad
 
 
-prop("C02", ["c02_roundtrip", "c02_accepts_13", "c02_completes", "c02_schedule"], ["ENC", "DEC", "SYS"], gen_c02, [orc_c02])
+prop("C02", ["c02_roundtrip", "c02_accepts_13", "c02_first_accepted", "c02_completes", "c02_schedule"], ["ENC", "DEC", "SYS"], gen_c02, [orc_c02])
 
 
 # ------------------------------------------------------------------------------------------------
@@ -1510,7 +1530,7 @@ def orc_c04_receiver(case, obs):
     return bad
 
 
-prop("C04", ["c04_attribution", "c04_sync", "c04_receiver_only"], ["SYS", "DEC"], gen_c04, [orc_c04, orc_c04_receiver])
+prop("C04", ["c04_attribution", "c04_sync", "c04_receiver_only", "c04_padding_clears"], ["SYS", "DEC"], gen_c04, [orc_c04, orc_c04_receiver])
 
 
 # ------------------------------------------------------------------------------------------------
